@@ -5,6 +5,7 @@ mod common;
 mod conc;
 mod heap;
 mod lang;
+mod par;
 mod types;
 mod parse;
 mod modules;
@@ -97,6 +98,7 @@ fn main() {
         "conc" => conc::cmd(rest),
         "heap" => heap::cmd(rest),
         "lang" => lang::cmd(rest),
+        "par" => par::cmd(rest),
         "types" => types::cmd(rest),
         "parse" => { let src = std::fs::read_to_string(&rest[0]).unwrap(); println!("{:?}", parse::dump(&src)); }
         "modules" => modules::cmd(rest),
